@@ -60,6 +60,10 @@ def allowed_roots(ctx, fi: FunctionInfo) -> Optional[Set[str]]:
             return {selfroot}
     if fi.cls is None and fi.module.name.endswith("utils.solver") and fi.name in ("gaussian_elimination", "solve"):
         return {"P:" + fi.params[0]}
+    if fi.name.startswith("_") and not (fi.name.startswith("__") and fi.name.endswith("__")):
+        # a private helper may fill / update containers its caller hands to it (out-parameter pattern); whether an
+        # operand of a *public* operation is affected is decided at the public callers through the summaries
+        return {"P:" + p for p in fi.params}
     return None
 
 
